@@ -486,6 +486,15 @@ class CodeGenerator(NodeVisitor):
         error could occur.  The extra keyword arguments should be given
         as python dict.
         """
+        # the extra keyword arguments are emitted next to the ones from the
+        # template, a name used by both would be repeated in the call.
+        for kwarg in node.kwargs:
+            if extra_kwargs is not None and kwarg.key in extra_kwargs:
+                self.fail(
+                    f"keyword argument {kwarg.key!r} is reserved in this call",
+                    kwarg.lineno,
+                )
+
         # if any of the given keyword arguments is a python keyword
         # we have to make sure that no invalid call is created.
         kwarg_workaround = any(
